@@ -1361,8 +1361,12 @@ class Do(BeginStatement):
             if label == self.endlabel:
                 result = True
                 if isinstance(self.parent, Do) and label == self.parent.endlabel:
-                    # the same item label may be used for different block ends
+                    # the same item label may be used for different block
+                    # ends: hand the terminating statement on to the
+                    # enclosing DO (which will hold it) and end this block
+                    # without adding the statement a second time.
                     self.put_item(item)
+                    return True
         return BeginStatement.process_subitem(self, item) or result
 
     def get_classes(self):
